@@ -514,7 +514,13 @@ def oracle_valid(case, out):
     if d['form'] != 'origin':
         try:
             sp = urlsplit(raw.decode('utf-8') if d['form'] == 'absolute' else '//' + raw.decode('utf-8'))
-            ref_host, ref_port = sp.hostname, sp.port
+            ref_host = sp.hostname
+            try:
+                ref_port = sp.port
+            except ValueError:
+                if port_val is None or port_val <= 65535:
+                    raise
+                ref_port = port_val           # the reference, too, says "out of range": nothing may be connected
             ref_path = sp.path + ('?' + sp.query if '?' in raw.decode('utf-8') else '')
             ref_user, ref_pw = sp.username, sp.password
         except Exception as e:
